@@ -989,3 +989,57 @@ package iavl
 //@   requires iter != nil
 //@   ensures [closed] iter.t == nil && !iter.valid && err == old(iter.err)
 //@   modifies iter.t, iter.valid
+
+// ---------------------------------------------------------------- fast_iterator.go / nodedb.go: the persisted-index iterator (C08)
+//
+// The index lives under prefix 'f'; an iteration domain [start,end) maps to
+// ['f'+start, 'f'+end) with an absent bound mapped to the bare prefix (start)
+// or its successor (end); direction selects Iterator / ReverseIterator with the
+// SAME (lower, upper) argument order.
+//@ func (*nodeDB).getFastIterator(ndb, start, end, ascending) (it, err)
+//@   props C08 C07
+//@   nosafety
+//@   requires ndb != nil
+//@   callsite KVStoreWithBatch).Iterator [ascending] ascending && arg0 == startFormatted && arg1 == endFormatted
+//@   callsite KVStoreWithBatch).ReverseIterator [descending] !ascending && arg0 == startFormatted && arg1 == endFormatted
+//@   modifies *
+
+//@ func fastnode.DeserializeNode(key, buf) (node, err)
+//@   summary
+
+// FastIterator.Next: the first step opens the underlying cursor over the
+// iterator's own domain and direction; the iterator is valid only while the
+// underlying cursor is valid and the entry decoded without error.
+//@ func (*FastIterator).Next(iter)
+//@   props C08 C07
+//@   nosafety
+//@   requires iter != nil
+//@   callsite nodeDB).getFastIterator [own-domain] arg1 == iter.start && arg2 == iter.end && arg3 == iter.ascending && old(iter.fastIterator) == nil
+//@   ensures [nil-ndb] old(iter.ndb) == nil ==> !iter.valid && iter.err != nil
+//@   ensures [valid-decoded] iter.valid ==> iter.err == nil && iter.fastIterator != nil
+//@   ensures [valid-source] iter.valid ==> itvalid[iter.fastIterator]
+//@   modifies *
+
+// ---------------------------------------------------------------- iterator selection (C07/C08): the index is used only for the latest version
+//@ func NewFastIterator(start, end, ascending, ndb) (it)
+//@   summary
+//@ func NewIterator(start, end, ascending, tree) (it)
+//@   summary
+//@ func NewUnsavedFastIterator(start, end, ascending, ndb, adds, rems) (it)
+//@   summary
+
+//@ func (*ImmutableTree).Iterator(t, start, end, ascending) (it, err)
+//@   props C07 C08
+//@   nosafety
+//@   requires t != nil && t.ndb != nil && allocated(t.ndb) && t.ndb.db != nil && t.ndb.latestVersion > 0
+//@   callsite NewFastIterator [index-only-for-latest] !t.skipFastStorageUpgrade && t.version == old(t.ndb.latestVersion) && arg0 == start && arg1 == end && arg2 == ascending && arg3 == t.ndb
+//@   callsite NewIterator [walk-same-domain] arg0 == start && arg1 == end && arg2 == ascending && arg3 == t
+//@   modifies *
+
+//@ func (*MutableTree).Iterator(tree, start, end, ascending) (it, err)
+//@   props C07 C08
+//@   nosafety
+//@   requires tree != nil && tree.ImmutableTree != nil && tree.ImmutableTree.ndb != nil && allocated(tree.ImmutableTree.ndb) && tree.ImmutableTree.ndb.db != nil && tree.ImmutableTree.ndb.latestVersion > 0
+//@   callsite NewUnsavedFastIterator [overlay-merged] !tree.skipFastStorageUpgrade && tree.ImmutableTree.version == old(tree.ImmutableTree.ndb.latestVersion) && arg0 == start && arg1 == end && arg2 == ascending && arg3 == tree.ndb && arg4 == tree.unsavedFastNodeAdditions && arg5 == tree.unsavedFastNodeRemovals
+//@   callsite ImmutableTree).Iterator [fallback] arg0 == tree.ImmutableTree && arg1 == start && arg2 == end && arg3 == ascending
+//@   modifies *
